@@ -1,0 +1,9 @@
+//go:build !verif
+
+package server
+
+// Verification hooks (see /verif/DESIGN.md section 6). With the build tag off these are empty and inlined away.
+
+func verifManualClock() bool { return false }
+
+func verifPoint(_ int) {}
